@@ -195,6 +195,7 @@ class FolderProjectIo(ProjectIoInterface):
                 format_name=saving_options.data_format,
                 allow_overwrite=True,
             )
+            result.data[label].attrs["source_path"] = dataset.attrs["source_path"]
             paths.append(data_path.as_posix())
 
         return paths
